@@ -111,6 +111,16 @@ def case_density(case):
             dev = abs(rhs - lhs) / abs(lhs)
             sev = "lt1e-2" if dev < 1e-2 else ("lt5e-2" if dev < 5e-2 else ("lt1e-1" if dev < 1e-1 else "ge1e-1"))
             r.close("Gaussian-window Parseval identity between correlation and density", rhs, lhs, rtol=1e-6 if analytic else 5e-3, atol=1e-9, a=a / unit, sev=sev, **extra)
+    # wave numbers given as python int / list of int / integer array / float scalar are the same numbers
+    ki = [0, 1, 2, 7]
+    kf = np.array(ki, dtype=float)
+    for fname in ("spectral_density", "spectrum", "spectral_rad_pdf"):
+        fn = getattr(m, fname)
+        base = np.asarray(fn(kf), dtype=float)
+        r.close(f"{fname}(list of int) == {fname}(float array)", np.asarray(fn(ki), dtype=float), base, rtol=1e-13, atol=1e-300, **extra)
+        r.close(f"{fname}(integer array) == {fname}(float array)", np.asarray(fn(np.array(ki)), dtype=float), base, rtol=1e-13, atol=1e-300, **extra)
+        if d > 1 or fname != "spectral_rad_pdf":
+            r.close(f"{fname}(python int) == {fname}(float array)[i]", [float(np.asarray(fn(k_)).ravel()[0]) for k_ in ki[1:]], base[1:], rtol=1e-13, atol=1e-300, **extra)
     # normalisation of the radial pdf
     if analytic or True:
         K = (60.0 if not analytic else 2000.0) / unit
